@@ -39,7 +39,7 @@ NewLink == [ech |-> -1, pch |-> -1, eh |-> -1, ph |-> -1, name |-> "", eutSender
             idc |-> 0, dcS |-> 0, fBase |-> 0, fN |-> 0, fWired |-> 0, fSends |-> 0, owed |-> 0, limit |-> -1, limRel |-> -1, drainOwed |-> FALSE, echoOwed |-> FALSE, inDel |-> FALSE, curDid |-> -1,
             sendsIssued |-> 0, delsDone |-> 0, blockedBy |-> "none", lastM |-> -1, cancels |-> 0,
             \* receiver role (EUT receives)
-            dcR |-> 0, dcGot |-> 0, lcR |-> 0, limitR |-> 0, limitMax |-> 0, idcP |-> 0, accepted |-> 0, broken |-> FALSE, aborts |-> 0, cfgActive |-> FALSE, creditMode |-> -2, autoAcc |-> FALSE, expectLc |-> -1, appLc |-> -1, sflowGap |-> FALSE, dispN |-> 1, held |-> 0, pInDel |-> FALSE, appDrained |-> FALSE, cutQueued |-> FALSE, detQueued |-> FALSE,
+            dcR |-> 0, dcGot |-> 0, lcR |-> 0, limitR |-> 0, limitMax |-> 0, idcP |-> 0, accepted |-> 0, broken |-> FALSE, aborts |-> 0, cfgActive |-> FALSE, creditMode |-> -2, autoAcc |-> FALSE, expectLc |-> -1, appLc |-> -1, sflowGap |-> FALSE, dispN |-> 1, held |-> 0, pInDel |-> FALSE, appDrained |-> FALSE, drainAsked |-> FALSE, cutQueued |-> FALSE, detQueued |-> FALSE,
             inq |-> <<>>,          \* incoming deliveries not yet handed to the application
             got |-> <<>>,          \* deliveries handed to the application: [did, m, app (state chosen by the application or "none"), presettled]
             \* settlement
@@ -250,10 +250,13 @@ H_EFlow(s, r, l) ==
        \* at least those already handed to the application, at most those that have arrived (a link endpoint
        \* processes arrivals when the application drives it)
        \* cutQueued: the flow states a limit below what has already arrived and waits for recv() (credit lowered over queued deliveries)
-       R(SetL(s, k, [y EXCEPT !.lcR = f.lc, !.limitR = f.dc + Max(f.lc, 0), !.limitMax = Max(@, f.dc + Max(f.lc, 0)), !.expectLc = -1,
+       R(SetL(s, k, [y EXCEPT !.lcR = f.lc, !.limitR = f.dc + Max(f.lc, 0), !.limitMax = Max(@, f.dc + Max(f.lc, 0)), !.expectLc = -1, !.drainAsked = FALSE,
                               !.cutQueued = (@ \/ (y.dcR > y.dcGot /\ f.dc + Max(f.lc, 0) < y.dcR))]),
          fs + Chk("C09_FlowCount", f.dc >= y.dcGot /\ f.dc <= y.dcR, l, IF y.sflowGap THEN "after_sender_flow" ELSE "")
             + Chk("C09_FlowCredit", y.expectLc < 0 \/ f.lc = y.expectLc, l, "")
+            \* credit that is re-issued must be usable: a flow that raises the limit while telling the sender to drain makes a sender that
+            \* honours drain give the fresh credit back at once; only the application's own drain() may do that
+            + Chk("C09_TopUpUsable", ~(f.drain /\ f.lc > 0 /\ f.dc + f.lc > y.limitR) \/ y.drainAsked, l, "")
             + Chk("C09_FlowCreditAuto", ~y.cfgActive \/ y.creditMode < 0 \/ y.expectLc >= 0 \/ f.drain \/ f.lc <= Max(y.creditMode, y.appLc), l, ""))   \* (credit the application raised itself may be re-announced)
 
 \* a delivery that may be handed to the application: complete, not aborted, not contradictory
@@ -466,7 +469,7 @@ H_ApiCall(s, r, l) ==
   \* the application drains the link: by the documented contract of drain() the link stays drained until the application sets credit again
   ELSE IF r.op = "drain" THEN
        LET k == LinkByName(s, r.lname, FALSE) IN
-       IF k = 0 THEN R(s, 0) ELSE R(SetL(s, k, [s.ls[k] EXCEPT !.touched = TRUE, !.appDrained = TRUE]), 0)
+       IF k = 0 THEN R(s, 0) ELSE R(SetL(s, k, [s.ls[k] EXCEPT !.touched = TRUE, !.appDrained = TRUE, !.drainAsked = TRUE]), 0)
   ELSE IF r.scope # "" /\ r.lname # "" /\ r.op # "await_outcome" THEN
        \* any operation on a link counts as the application touching it
        LET k == LastIdx(s.ls, LAMBDA y : y.name = r.lname /\ y.eAtt) IN
